@@ -8,6 +8,7 @@ import (
 
 	"verif/sim/pktcodec"
 	"verif/sim/simrt"
+	"verif/sim/simwire"
 )
 
 // A packet-scan scenario = scan specification + simulated hosts + unsolicited traffic.
@@ -368,4 +369,29 @@ func classifyRec(s string) string {
 
 func runPacketScenario(t *testing.T, c simrt.Chooser, o Opts, sc *pktScenario) *CmdResult {
 	return runCmd(t, c, sc.World, o.Trace)
+}
+
+// injectReadErrors scripts n unknown read errors on the first socket of the scan, spread over the
+// first 60 % of the exit delay (a flapping link): each is logged and the receiver pauses briefly;
+// replies arriving in the window - between the errors and after them - must still be reported and
+// the delay itself must not move.
+func injectReadErrors(sc *pktScenario, n int) {
+	gap := sc.exitDelay * 6 / 10 / time.Duration(n+1)
+	inner := sc.World.onFilter
+	sc.World.onFilter = func(nw *simwire.Net, sk *simwire.Sock) {
+		if inner != nil {
+			inner(nw, sk)
+		}
+		if sk.ID != 0 {
+			return
+		}
+		for k := 1; k <= n; k++ {
+			k := k
+			nw.At(time.Duration(k)*gap+time.Duration(k), func() {
+				simrt.Fault("rx-errno")
+				sk.ScriptReadErrors(fmt.Errorf("recvmsg: input/output error (injected #%d)", k))
+			})
+		}
+	}
+	sc.ReadErrs = n
 }
